@@ -30,7 +30,7 @@ TOL = 1e-12
 
 # documented (nPg -> order) tables, transcribed from the docstrings (see ASSUMPTIONS)
 DOC = dict(
-    TRI={1: 1, 3: 2, 6: 3, 7: 4, 12: 5},
+    TRI={1: 1, 3: 2, 6: 3, 7: 4, 12: 5, 25: 9},
     QUAD={4: 1, 9: 2},
     TETRA={1: 1, 4: 2, 5: 3, 15: 5},
     HEXA={8: 3, 27: 5},
